@@ -847,7 +847,7 @@ func RunOne(o core.RunOpts) (res *core.RunResult) {
 						if vp, ok := vps[id]; ok {
 							// the chain's record of the last accepted submission; it must agree with what this harness saw accepted
 							if la, ok2 := lastAccepted[id]; ok2 && la != vp.Timestamp {
-								fail("harness_bookkeeping", "", "signal %s: chain says last accepted at %d, harness saw %d", id, vp.Timestamp, la)
+								fail("accepted_submission_misrecorded", "", "signal %s: the chain records its last accepted price submission at %d, but the submission accepted for this signal was at %d", id, vp.Timestamp, la)
 							}
 							if vp.Timestamp+f.Interval > ref {
 								ref = vp.Timestamp + f.Interval
